@@ -32,6 +32,15 @@ pub fn analyze(code: &str, path: &Path) -> Result<air::Ir, String> {
     let mut ir = air::Ir::default();
     errors.append(&mut analyzer.analyze_pass2(&parser.veryl, &mut context, Some(&mut ir)));
     errors.append(&mut Analyzer::analyze_post_pass2(&ir));
+    if std::env::var_os("TVDUMP_DIAG").is_some() {
+        for e in &errors {
+            eprintln!("[diag error={}] {e}", e.is_error());
+        }
+    }
+    // a design the compiler rejects is not in the domain of any property: `veryl check` fails on exactly these
+    if let Some(e) = errors.iter().find(|e| e.is_error()) {
+        return Err(format!("rejected by the analyzer: {e}"));
+    }
     Ok(ir)
 }
 
@@ -138,6 +147,11 @@ fn main() {
                 "children": sim_ir.module_variables.children.len(),
                 "comb_passes": sim_ir.required_comb_passes,
             }));
+        }
+        "ir" => {
+            // debugging aid: the analyzer IR as text
+            let ir = analyze(&code, path).expect("analyze");
+            println!("{}", ir);
         }
         "jitdiff" => {
             // native replay of a CLIF-miter counterexample: the real JIT engine vs the real interpreter
